@@ -3,6 +3,7 @@ package rules
 import (
 	"fmt"
 	"go/token"
+	"sort"
 	"strings"
 
 	"golang.org/x/tools/go/ssa"
@@ -84,11 +85,17 @@ func c17(r *core.Run) {
 	for _, kind := range []string{"Set", "Delete"} {
 		for _, fn := range funcs {
 			effs := p.Effects(fn)
-			var onlyA, onlyB []*core.Effect
+			var onlyA, onlyB, candA, candB []*core.Effect
 			for _, e := range effs {
 				a, b := effHas(e, kind, stFiles), effHas(e, kind, stFilesO)
 				if e.Direct {
 					continue // the index-level helper itself; its callers are judged
+				}
+				if a && !b {
+					candA = append(candA, e)
+				}
+				if b && !a {
+					candB = append(candB, e)
 				}
 				// report at the deepest function only
 				deeper := false
@@ -111,27 +118,98 @@ func c17(r *core.Run) {
 					onlyB = append(onlyB, e)
 				}
 			}
-			check := func(xs, ys []*core.Effect, missing string) {
+			other := func(name string) string {
+				if name == stFiles {
+					return stFilesO
+				}
+				return stFiles
+			}
+			sameKeys := func(xc ssa.CallInstruction, xname string, yc ssa.CallInstruction) bool {
+				xt, yt := indexKeyTerms(p, xc, kind, xname), indexKeyTerms(p, yc, kind, other(xname))
+				return len(xt) > 0 && strings.Join(xt, "|") == strings.Join(yt, "|") && !strings.Contains(strings.Join(xt, "|"), "?")
+			}
+			// mustPerform: call performs the op directly, or through a helper on every path of that helper
+			mustPerform := func(call ssa.CallInstruction, name string) bool {
+				if cal, _ := directOpCallee(p, call, kind, name); cal != nil {
+					return true
+				}
+				cs := p.Callees(call)
+				if len(cs) != 1 {
+					return false
+				}
+				g := cs[0]
+				okAll := false
+				allInstrs(g, func(in ssa.Instruction) {
+					ic, isCall := in.(ssa.CallInstruction)
+					if !isCall {
+						return
+					}
+					if cal, _ := directOpCallee(p, ic, kind, name); cal != nil && cal != g {
+						if p.BypassExists(g, g.Blocks[0].Instrs[0], ic, true) == nil {
+							okAll = true
+						}
+					}
+				})
+				return okAll
+			}
+			partnered := func(f *ssa.Function, x ssa.CallInstruction, xname string, ys []*core.Effect) bool {
+				if !mustPerform(x, xname) {
+					return false
+				}
+				for _, y := range ys {
+					yc, isCall := y.Instr.(ssa.CallInstruction)
+					if !isCall || yc == x {
+						continue
+					}
+					if !mustPerform(yc, other(xname)) {
+						continue
+					}
+					if pairedOnAllPaths(p, f, x, yc) && pairedOnAllPaths(p, f, yc, x) && (sameArgs(p, x, yc) || sameKeys(x, xname, yc)) {
+						return true
+					}
+				}
+				return false
+			}
+			check := func(xs, ys []*core.Effect, xname, missing string) {
 				for _, x := range xs {
 					n1++
 					r.Analysed(core.FnName(fn))
 					xc := x.Instr.(ssa.CallInstruction)
-					ok := false
-					for _, y := range ys {
-						yc, isCall := y.Instr.(ssa.CallInstruction)
-						if !isCall {
-							continue
+					ok := partnered(fn, xc, xname, ys)
+					if !ok {
+						// the partner may live in every caller of this helper: judge each call site there
+						nCallers, all := 0, true
+						for _, f := range funcs {
+							allInstrs(f, func(in ssa.Instruction) {
+								cs, isCall := in.(ssa.CallInstruction)
+								if !isCall {
+									return
+								}
+								for _, cal := range p.Callees(cs) {
+									if cal != fn || f == fn {
+										continue
+									}
+									nCallers++
+									var partners []*core.Effect
+									for _, e := range p.Effects(f) {
+										if !e.Direct && effHas(e, kind, other(xname)) && !effHas(e, kind, xname) {
+											partners = append(partners, e)
+										}
+									}
+									if !partnered(f, cs, xname, partners) {
+										all = false
+									}
+								}
+							})
 						}
-						if pairedOnAllPaths(p, fn, x.Instr, y.Instr) && pairedOnAllPaths(p, fn, y.Instr, x.Instr) && sameArgs(p, xc, yc) {
-							ok = true
-						}
+						ok = nCallers > 0 && all
 					}
 					r.Check(ok, "C17/R1", fmt.Sprintf("%s:%s-pairs-%s", core.FnName(fn), kind, missing), p.InstrPos(x.Instr),
-						"paired on all paths with the other index, same arguments", "a file "+kind+" reaches only one index: the "+missing+" listing is not updated on every path (or with different arguments)")
+						"paired on all paths with the other index, same key", "a file "+kind+" reaches only one index: the "+missing+" listing is not updated on every path (or with a different key)")
 				}
 			}
-			check(onlyA, onlyB, "by-owner")
-			check(onlyB, onlyA, "by-merkle")
+			check(onlyA, candB, stFiles, "by-owner")
+			check(onlyB, candA, stFilesO, "by-merkle")
 		}
 	}
 	r.Floor("C17/R1", n1, 4, "single-index call sites")
@@ -442,4 +520,42 @@ func containsKeyTerm(p *core.Program, caller *ssa.Function, appendCall ssa.CallI
 		}
 	})
 	return containsTerm, appendTerm
+}
+
+// indexKeyTerms: the sorted key terms of the op (kind on store name) that call performs directly or one helper level
+// down, expressed in the caller's values; a key field of a record loaded by a getter counts as the key it was loaded by.
+func indexKeyTerms(p *core.Program, call ssa.CallInstruction, kind, name string) []string {
+	outer := core.NewTermBuilder(p)
+	outer.Loaded = true
+	var out []string
+	if cal, op := directOpCallee(p, call, kind, name); cal != nil {
+		out = keyTermsAtCallTB(p, outer, call, cal, op)
+	} else if cs := p.Callees(call); len(cs) == 1 {
+		c := call.Common()
+		var actuals []ssa.Value
+		if c.IsInvoke() {
+			actuals = append(actuals, c.Value)
+		}
+		actuals = append(actuals, c.Args...)
+		sub := core.NewTermBuilder(p)
+		sub.Loaded = true
+		sub.Bind = map[*ssa.Parameter]core.BoundVal{}
+		for i, prm := range cs[0].Params {
+			if i < len(actuals) {
+				sub.Bind[prm] = core.BoundVal{Val: actuals[i], TB: outer}
+			}
+		}
+		allInstrs(cs[0], func(in ssa.Instruction) {
+			ic, ok := in.(ssa.CallInstruction)
+			if !ok || out != nil {
+				return
+			}
+			if cal, op := directOpCallee(p, ic, kind, name); cal != nil && cal != cs[0] {
+				out = keyTermsAtCallTB(p, sub, ic, cal, op)
+			}
+		})
+	}
+	out = append([]string{}, out...)
+	sort.Strings(out)
+	return out
 }
